@@ -150,7 +150,9 @@ impl PushInterpreter {
                 },
                 push_state,
             );
-            if push_state.size() > size_before_step + push_state.configuration.growth_cap as usize {
+            if push_state.size()
+                > size_before_step.saturating_add(push_state.configuration.growth_cap as usize)
+            {
                 #[cfg(feature = "verif")]
                 verif::emit(verif::RunEvent::End { outcome: "GrowthCapExceeded", counter: step_counter }, push_state);
                 return PushInterpreterState::GrowthCapExceeded;
